@@ -51,7 +51,7 @@ def abstract(poly, q, raised, d=None, x=None, y=None, i=None):
     return e
 
 
-SMALL = 1.0 / 1024      # the property does not depend on the unit: every third call is made on coordinates scaled by 2^-10
+SMALL = 2.0 ** -20      # the property does not depend on the unit: every third call is made on coordinates scaled by 2^-20 (a micrometre per lattice step)
                         # (exact in binary floating point), and the answer is scaled back before it is abstracted
 
 
@@ -151,15 +151,16 @@ def call_maptrack(poly, qs):
     out = []
     try:
         with core.quiet():
-            qt = mk_track(qs)
+            s_ = scale_of(qs[0], *poly)
+            qt = mk_track(qs, s_)
             if (len(qs) + len(poly) + int(sum(q[0] for q in qs))) % 2 == 0:
                 # history: the projected track already carries features named like the outputs (it is the result of an earlier
                 # projection on another line, whose values it still holds)
                 qt.createAnalyticalFeature("dist", [99.0 + k for k in range(len(qs))])
                 qt.createAnalyticalFeature("edge", [7] * len(qs))
-            res = mapOnTrack(qt, mk_track(poly))
+            res = mapOnTrack(qt, mk_track(poly, s_))
             n = res.size()
-            rows = [(res["dist", k], res[k].position.getX(), res[k].position.getY(), res["edge", k]) for k in range(n)]
+            rows = [(res["dist", k] / s_, res[k].position.getX() / s_, res[k].position.getY() / s_, res["edge", k]) for k in range(n)]
         if n != len(qs):
             raise core.Machinery("mapOnTrack(track, track) returned %d observations for %d" % (n, len(qs)))
         for q, (d, x, y, i) in zip(qs, rows):
